@@ -491,6 +491,13 @@ def replace_rule(R3, mod, fn):
     for n in colliding:
         problems.append(('Expr.replace_expr:mark-name', 'the mark %s is not named after a per-key counter: two different keys can get the same mark (hashes of nodes are XORs of their children: '
                          'a-b and b-a collide), and both are then replaced by one value' % norm(n)))
+    unmodelled = [pm for pm in problems if pm[0] == 'Expr.replace_expr:callback']
+    problems = [pm for pm in problems if pm[0] != 'Expr.replace_expr:callback']
+    for key, msg in unmodelled:
+        # the shape of the traversal is not one this clause knows: what replace_expr computes is decided by evaluation (C15.D8)
+        R3.note('replace_expr: %s -- not judged here; C15.D8 evaluates replace_expr on identifier maps, swaps, chains and compound keys' % msg)
+    if unmodelled and not problems:
+        R3.ok('Expr.replace_expr', nontrivial=False)
     if problems:
         for key, msg in problems:
             R3.violation('Expr.replace_expr', key, msg, where(mod, fn), witness="((a+x)*(b+x)).replace_expr({a: b, (b+x): c}) is (c*c), not ((b+x)*c)" if key.endswith('chained') else None)
@@ -578,7 +585,7 @@ MUTANTS = [
      'return self.arg == a.arg and self.size == a.size and self.segm == self.segm', 'C15.D1'),
     ('replace-noop', 'miasmx/expression/expression.py',
      '            if e in dct:\n                return dct[e]\n            return e\n',
-     '            return e\n', 'C15.D3'),
+     '            return e\n', 'C15.D8'),
     ('mem-visit-early-self', 'miasmx/expression/expression.py',
      '        segm = self.segm\n        if isinstance(segm, Expr):\n            segm = self.segm.visit(cb)\n        else:\n            segm = None\n        arg = self.arg.visit(cb)\n        if segm == self.segm and arg == self.arg:\n            return self\n',
      '        arg = self.arg.visit(cb)\n        if arg == self.arg:\n            return self\n        segm = self.segm\n        if isinstance(segm, Expr):\n            segm = segm.visit(cb)\n        else:\n            segm = None\n', 'C15.D2'),
